@@ -209,6 +209,33 @@ def gen_grid(rng):
     return ops
 
 
+def gen_window_edge(rng):
+    """The read-ahead window (F x 65535 bytes) filled completely by one carrier delivery, with the length prefix of a
+    (near-)maximum frame sitting in its last bytes: the reader must take the frame from the auxiliary tail of its buffer."""
+    F = rng.choice([1, 2, 5, 5])
+    j = rng.choice([0, 1, 2, 3, 5, 12, 13, 14, 15, 16, 17, 18, 19, rng.randrange(0, 40)])
+    target = F * 65535 - j                       # wire offset of the big frame's length prefix
+    n_full, rem = divmod(target, 65537)
+    if 0 < rem < 19 and n_full > 0:
+        n_full, rem = n_full - 1, rem + 65537
+    frames = [65519] * n_full
+    if rem >= 19:
+        if rem - 18 <= 65519:
+            frames.append(rem - 18)
+        else:
+            a = rem // 2
+            frames += [a - 18, rem - a - 18]
+    rng.shuffle(frames)
+    frames.append(rng.choice([65519, 65519, 65518, 65507, 65506, 65505, 65504, 40000]))
+    frames.append(rng.choice([65519, 17, 1]))
+    ops = [f"cfg {F} 3"]
+    for n in frames:
+        ops += [f"write {n}", "flush"]
+    ops += ["carrier deliver all", "carrier close"]
+    ops += [f"read {rng.choice([131072, 131072, 65536, 70000])}" for _ in range(len(frames) + 4)]
+    return ops
+
+
 def corpus():
     return [
         # DESIGN §8 (a): a write of MAX_FRAME_LEN+1 bytes (65520 on the old constants) must succeed
@@ -233,7 +260,9 @@ def gen_cases(rng, tier):
     kinds = ["small", "small", "chunky", "chunky", "big", "pressure", "tamper", "tamper", "faults"]
     for i in range(n):
         r = i % 12
-        if r == 10:
+        if r == 9 and (i // 12) % 2 == 0:
+            yield gen_window_edge(rng)
+        elif r == 10:
             yield gen_onebyte(rng)
         elif r == 11:
             yield gen_grid(rng)
